@@ -201,6 +201,7 @@ struct World {
   long *lfctr = nullptr;
   // the hydro worker loop's local counter (TaskBasedRadiationHydrodynamicsSimulation.cpp)
   AtomicValue< uint_fast32_t > number_of_tasks;
+  bool ms_only = true; // no program releases a slot with the raw ThreadSafeVector::free_element
   std::vector< size_t > nrunning; // per thread: popped tasks not yet handed to unlock_dependency
   int in_seed = 0;                // threads between add_task and pre_increment of the initial loop
 
@@ -230,6 +231,10 @@ struct World {
       task.set_number_of_unfinished_parents(0);
     }
     nrunning.assign(sc.progs.size(), 0);
+    for (auto &p : sc.progs)
+      for (auto &c : p)
+        if (c.op == "f")
+          ms_only = false;
     for (size_t q = 0; q < sc.nqueues; ++q)
       queues.push_back(new TaskQueue(256));
     ctr = new AtomicValue< long >[sc.nctr + 1];
@@ -258,7 +263,10 @@ struct World {
 
   long lock_index(ThreadLock *l) const { return l - locks; }
 
-  void bad(const std::string &what) { oracle.push_back(what); }
+  void bad(const std::string &what) {
+    if (oracle.size() < 12) // a hammer line can hit the same failure thousands of times
+      oracle.push_back(what);
+  }
 
   // counter protocol of the hydro worker loop: number_of_tasks is never 0 while a task is
   // queued or running (checked at the completion of every call, schedule mode only: all other
@@ -337,9 +345,40 @@ static void erase_first(std::vector< size_t > &l, size_t x) {
 }
 
 static void run_program(World &w, int tid) {
-  const std::vector< Cmd > &prog = w.sc.progs[tid];
+  const std::vector< Cmd > &prog1 = w.sc.progs[tid];
+  // oracle-only lines ("G <seed>x<reps>"): the program is repeated
+  size_t reps = 1;
+  if (w.sc.mode == "G" && w.sc.arg.find('x') != std::string::npos)
+    reps = u64(w.sc.arg.substr(w.sc.arg.find('x') + 1));
+  std::vector< Cmd > prog;
+  for (size_t r = 0; r < reps; ++r)
+    prog.insert(prog.end(), prog1.begin(), prog1.end());
   std::vector< size_t > owned, held, mytasks, fin; // newest first, like the model
   std::vector< long > last_mx;                      // last value this thread saw in a max cell
+  // buffer contents as this thread (the owner) left them: size, and in free mode a stamp
+  std::vector< long > exp_size(w.sc.size + 1, -1), stamp_n(w.sc.size + 1, 0);
+  std::vector< double > stamp_val(w.sc.size + 1, 0.);
+  unsigned long seq = 0;
+  // "between get_free_buffer handing out i and the owner's free_buffer(i) nobody else writes
+  // buffer i": the owner re-checks what it stored
+  auto check_own = [&](size_t i, const char *when) {
+    if (i >= w.sc.size || exp_size[i] < 0)
+      return;
+    PhotonBuffer &b = (*w.ms)[i];
+    bool bad = ((long)b.size() != exp_size[i]);
+    if (!bad && free_mode && stamp_n[i] > 0) {
+      if (b.get_subgrid_index() != (size_t)tid)
+        bad = true;
+      for (long k = 0; k < stamp_n[i] && !bad; ++k)
+        if (b[k].get_weight() != stamp_val[i])
+          bad = true;
+    }
+    if (bad) {
+      Guard g(w.om);
+      w.bad(std::string("buffer-content-changed-while-owned-") + when + "(" + std::to_string(i) + "," +
+            std::to_string(exp_size[i]) + "," + std::to_string((long)b.size()) + ")");
+    }
+  };
   const std::string T = std::to_string(tid) + ":";
   auto out = [&](const std::string &s) {
     if (!free_mode)
@@ -352,9 +391,30 @@ static void run_program(World &w, int tid) {
     if (op == "g" || op == "gs") {
       const size_t i = (op == "g") ? w.pool->get_free_element() : w.ms->get_free_buffer();
       if (i < w.sc.size) {
-        Guard g(w.om);
-        w.take_slot(tid, i);
-        owned.insert(owned.begin(), i);
+        {
+          Guard g(w.om);
+          w.take_slot(tid, i);
+          owned.insert(owned.begin(), i);
+        }
+        PhotonBuffer &b = (*w.ms)[i];
+        if (w.ms_only && b.size() != 0) {
+          Guard g(w.om);
+          w.bad("handed-out-buffer-is-not-empty(" + std::to_string(i) + "," + std::to_string((long)b.size()) + ")");
+          b.reset();
+        }
+        exp_size[i] = b.size();
+        stamp_n[i] = 0;
+        if (free_mode && w.ms_only) {
+          // fill with a recognisable pattern: owner id, sequence number
+          ++seq;
+          const long n = 1 + (long)(seq % 5);
+          b.set_subgrid_index(tid);
+          stamp_val[i] = (double)tid * 1.e9 + (double)seq;
+          for (long k = 0; k < n; ++k)
+            b[b.get_next_free_photon()].set_weight(stamp_val[i]);
+          stamp_n[i] = n;
+          exp_size[i] = n;
+        }
       } else if (op == "g" || i != w.sc.size) {
         Guard g(w.om);
         w.bad("get-returned-invalid-index");
@@ -367,6 +427,8 @@ static void run_program(World &w, int tid) {
       }
       const size_t i = pick(owned, c.a);
       erase_first(owned, i);
+      check_own(i, "at-release");
+      exp_size[i] = -1;
       {
         Guard g(w.om);
         w.slot_owner[i] = -1;
@@ -382,6 +444,8 @@ static void run_program(World &w, int tid) {
         continue;
       }
       const size_t i = pick(owned, c.a);
+      for (size_t o2 : owned)
+        check_own(o2, "before-add_photons");
       PhotonBuffer *in = new PhotonBuffer();
       in->grow((uint_fast32_t)c.b);
       const size_t before = (*w.ms)[i].size();
@@ -397,6 +461,11 @@ static void run_program(World &w, int tid) {
             w.bad("add_photons-lost-or-created-packets");
         } else if ((*w.ms)[i].size() - before != (size_t)c.b)
           w.bad("add_photons-lost-or-created-packets");
+      }
+      exp_size[i] = (*w.ms)[i].size();
+      if (o != i && o < w.sc.size) {
+        exp_size[o] = (*w.ms)[o].size();
+        stamp_n[o] = 0;
       }
       out("ph" + std::to_string(o));
     } else if (op == "l" || op == "tl") {
